@@ -9,10 +9,13 @@
     * `hom_run_reaches_homogenize` — C10's executable `Cov.Hom.run` accepted ⇒ `Env.homogenize` accepted, same numbers
       (from `hom_run_eq_homogenize`);
     * repeated column indices: `denseA_entry_sum` (`project_equations()`'s `+=`: the dense entry is the SUM of the
-      stored coefficients, no `Nodup` hypothesis), `diagBlock_row_dense` (an uncorrelated block keeps every entry);
+      stored coefficients, no `Nodup` hypothesis), `diagBlock_row_dense` (an uncorrelated block keeps every entry),
+      `gather_col_dense` / `corrBlock_row_dense` (a CORRELATED block: since /repo 6d0f7107 the gather loop is
+      `T(i, perm[c]) += *b++`, so `T` holds the same SUM — `Cov.gather_spec`, no `Nodup` hypothesis);
       the witness `Ex.repNp` / `Ex.repMat` / `Ex.repCov` (a correlated block whose first row stores column 1 twice),
       evaluated over `Rat` (every pivot is 1, so the marker `sqrt = id` of `Scalar Rat` is exact on it):
-      `rep_same_input`, `rep_dense_path`, `rep_sparse_path`, `rep_differ`;
+      `rep_same_input`, `rep_dense_path`, `rep_sparse_path`, `rep_agree`; `rep_ls_model_last_wins` (the LS-side model
+      `Env.homogenize` / `Problem.dense` still reads a repeated column as last-write-wins);
     * non-vacuity of the sparse-path bridge: `Ex.npRMat`, `Ex.npRCov` hold the correlated network `Ex.npR`
       (`npR_holds : Env.HoldsProblem (toProblem npR) npRMat npRCov []`) and `Hom.run` accepts them (`npR_homrun_accepted`).
 -/
@@ -187,6 +190,43 @@ theorem diagBlock_row_dense (mat : SMat K) (nonz : Array K) (begin_ off dim i : 
   rw [@Cov.diagBlock_getD K (Cov.fieldScalar K SqrtFn.sq) mat nonz begin_ off dim i h1 h2]
   exact @Cov.denseRow_map_div K (Cov.fieldScalar K SqrtFn.sq) (fun a b d => add_div a b d) (fun d => zero_div d) _ _ c
 
+/-! ### repeated column indices in a CORRELATED block of `Homogenization::run`: `T(i, perm[c]) += *b++` -/
+
+/-- the gather loop of a correlated block (`T.set_zero(); … T(i, perm[c]) += *b++`): column `j` of `T` is the dense
+    column `c = occ[j-1]` of the block's rows, i.e. entry `r` is the SUM of all coefficients row `off+r+1` stores with
+    column `c` — NO hypothesis on repeated columns (`Cov.gather_spec`) -/
+theorem gather_col_dense (mat : SMat K) (off dim cols : Nat) (perm : Array Nat)
+    (hperm0 : ∀ c, perm.getD c 0 = 0) (hpsize : perm.size = cols + 1)
+    (hcols : ∀ i, 1 ≤ i → i ≤ dim → ∀ e ∈ @SMat.rowEntries K ⟨0⟩ mat (off + i), 1 ≤ e.1 ∧ e.1 ≤ cols)
+    (j : Nat) (hj1 : 1 ≤ j) (hj2 : j ≤ (Cov.blockOcc mat off dim).length) :
+    (@Cov.gatherOf K (Cov.fieldScalar K SqrtFn.sq) mat off dim
+        (Cov.blockOcc mat off dim).length perm).T.getD (j - 1) #[] =
+      @Cov.colOf K _ _ ⟨0⟩ mat off dim ((Cov.blockOcc mat off dim).getD (j - 1) 0) ∧
+    ∀ r, r < dim →
+      ((@Cov.gatherOf K (Cov.fieldScalar K SqrtFn.sq) mat off dim
+        (Cov.blockOcc mat off dim).length perm).T.getD (j - 1) #[]).getD r 0 =
+      Cov.denseRow (@SMat.rowEntries K ⟨0⟩ mat (off + (r + 1)))
+        ((Cov.blockOcc mat off dim).getD (j - 1) 0) := by
+  have h := (Cov.gather_spec_field (SqrtFn.sq : K → K) mat off dim _ cols perm hperm0 hpsize hcols rfl).2.2.2.2.2
+    j hj1 hj2
+  refine ⟨h, fun r hr => ?_⟩
+  rw [h]
+  exact @Cov.colOf_getD K (Cov.fieldScalar K SqrtFn.sq) mat off dim _ r hr
+
+/-- the rows `Hom.corrBlock` writes, read densely: entry `c` of output row `i` is entry `i` of the forward-substituted
+    dense column `c` of the block (`Cov.colOf`: the SUMS of the repeated entries), 0 for a column the block does not
+    touch — NO hypothesis on repeated columns (`Cov.corrBlock_rows`) -/
+theorem corrBlock_row_dense (mat : SMat K) (nonz : Array K) (tab : Array Nat) (off dim cols : Nat) (perm : Array Nat)
+    (hperm0 : ∀ c, perm.getD c 0 = 0) (hpsize : perm.size = cols + 1)
+    (hcols : ∀ i, 1 ≤ i → i ≤ dim → ∀ e ∈ @SMat.rowEntries K ⟨0⟩ mat (off + i), 1 ≤ e.1 ∧ e.1 ≤ cols)
+    (i : Nat) (h1 : 1 ≤ i) (h2 : i ≤ dim) (c : Nat) :
+    Cov.denseRow ((@Cov.Hom.corrBlock K (Cov.fieldScalar K SqrtFn.sq) mat nonz tab off dim
+        (Cov.blockOcc mat off dim).length perm).1.getD (i - 1) []) c =
+      if c ∈ Cov.blockOcc mat off dim then
+        (@Cov.sweepTab K (Cov.fieldScalar K SqrtFn.sq) nonz tab off dim (@Cov.colOf K _ _ ⟨0⟩ mat off dim c)).getD (i - 1) 0
+      else 0 :=
+  ((Cov.corrBlock_rows (SqrtFn.sq : K → K) mat nonz tab off dim _ cols perm hperm0 hpsize hcols rfl).2 i h1 h2).2.1 c
+
 /-! ### `Homogenization::run` accepted ⇒ the homogenisation of `envSolve` accepted, same numbers -/
 
 theorem hom_run_reaches_homogenize (hsq : IsSqrt (SqrtFn.sq : K → K)) (p : Problem K)
@@ -213,8 +253,11 @@ end
   (coefficients `−1` and `+1`: an observation from a point to itself), the second row is `(2, 1)`; `rhs = (1, 2)`.
   The Cholesky factor is `L = [[1,0],[1,1]]`, `L⁻¹ = [[1,0],[−1,1]]`.
     dense path  (`project_equations()` `+=`, then `prepareProjectEquations()`): `A = [[0,0],[0,1]]`, `L⁻¹A = [[0,0],[0,1]]`;
-    sparse path (`Homogenization::run`, gather `T(i,perm[c]) = a`):            `A = [[1,0],[0,1]]`, `L⁻¹A = [[1,0],[−1,1]]`.
-  Both homogenise `rhs` to `(1, 1)`. -/
+    sparse path (`Homogenization::run`, gather `T(i,perm[c]) += a`):           `A = [[0,0],[0,1]]`, `L⁻¹A = [[0,0],[0,1]]`
+      (row 1 of the output is EMPTY: the exact zero `T(1,1)` is dropped; row 2 is `(2, 1)`).
+  Both homogenise `rhs` to `(1, 1)`.  Before /repo 6d0f7107 (gather `T(i,perm[c]) = a`, the last value won) the sparse
+  path homogenised `A = [[1,0],[0,1]]` to `[[1,0],[−1,1]]`; the LS-side MODEL `Env.homogenize` (`Problem.dense`, built with
+  `=`: `AdjDense.rowDense`) still does — `rep_ls_model_last_wins`. -/
 namespace Ex
 
 def repNp : Net.NetProblem Rat :=
@@ -243,25 +286,33 @@ theorem rep_dense_path :
     (Net.prepare repNp).toOption.map (fun h => (h.Ad, h.bd)) = some (#[#[0, 0], #[0, 1]], #[1, 1]) := by
   refine ⟨by decide +kernel, by decide +kernel⟩
 
-/-- sparse path: `Homogenization::run` homogenises the LAST stored value `+1` (and so does the homogenisation of
-    `envSolve`, whose dense matrix `Problem.dense` is built with `=`) -/
+/-- sparse path: `Homogenization::run` homogenises the SUM `−1 + 1 = 0` too (`T(1, perm[1]) += −1; += 1`): output row 1 is
+    empty (the exact zero is dropped), row 2 is `(2, 1)` -/
 theorem rep_sparse_path :
     (Cov.Hom.run (Cov.bdTol : Rat) repMat repCov repNp.rhs).toOption.map
-        (fun o => (@SMat.toRows Rat ⟨0⟩ o.sm, o.pr)) = some ([[(1, 1)], [(1, -1), (2, 1)]], #[1, 1]) ∧
-    (Env.homogenize (Net.toProblem repNp)).toOption.map (fun h => (h.At, h.bt)) = some (#[#[1, 0], #[-1, 1]], #[1, 1]) := by
-  refine ⟨by decide +kernel, by decide +kernel⟩
+        (fun o => (@SMat.toRows Rat ⟨0⟩ o.sm, o.pr)) = some ([[], [(2, 1)]], #[1, 1]) := by
+  decide +kernel
 
-/-- **the two paths differ**: both accept, and column 1 of the homogenised design matrix is `(0, 0)` on the dense path
-    and `(1, −1)` on the sparse path -/
-theorem rep_differ : ∃ hh out, Net.prepare repNp = .ok hh ∧
+/-- what is LEFT of the difference: the LS-side model of the envelope solver's homogenisation reads its dense matrix
+    `Problem.dense` with `=` (`AdjDense.rowDense`: the last stored value wins), so on this input it still homogenises
+    `[[1,0],[0,1]]` to `[[1,0],[−1,1]]` — which is why `hom_run_eq_homogenize` keeps its `nodupRows` hypothesis -/
+theorem rep_ls_model_last_wins :
+    (Env.homogenize (Net.toProblem repNp)).toOption.map (fun h => (h.At, h.bt)) = some (#[#[1, 0], #[-1, 1]], #[1, 1]) := by
+  decide +kernel
+
+/-- **the two paths agree**: both accept, the homogenised design matrix is `[[0,0],[0,1]]` on the dense path and the
+    output of `Homogenization::run` reads densely as the same matrix, entry by entry; same right-hand side -/
+theorem rep_agree : ∃ hh out, Net.prepare repNp = .ok hh ∧
     Cov.Hom.run (Cov.bdTol : Rat) repMat repCov repNp.rhs = .ok out ∧
-    Dn.mget hh.Ad 0 0 = 0 ∧ Cov.denseRow (@SMat.rowEntries Rat ⟨0⟩ out.sm 1) 1 = 1 ∧
-    Dn.mget hh.Ad 1 0 = 0 ∧ Cov.denseRow (@SMat.rowEntries Rat ⟨0⟩ out.sm 2) 1 = -1 := by
-  have h1 : (Net.prepare repNp).toOption.map (fun h => (Dn.mget h.Ad 0 0, Dn.mget h.Ad 1 0)) = some (0, 0) := by
+    hh.Ad = #[#[0, 0], #[0, 1]] ∧
+    (∀ s c, s < 2 → c < 2 → Cov.denseRow (@SMat.rowEntries Rat ⟨0⟩ out.sm (s + 1)) (c + 1) = Dn.mget hh.Ad s c) ∧
+    out.pr = hh.bd := by
+  have h1 : (Net.prepare repNp).toOption.map (fun h => (h.Ad, h.bd)) = some (#[#[0, 0], #[0, 1]], #[1, 1]) := by
     decide +kernel
   have h2 : (Cov.Hom.run (Cov.bdTol : Rat) repMat repCov repNp.rhs).toOption.map
-      (fun o => (Cov.denseRow (@SMat.rowEntries Rat ⟨0⟩ o.sm 1) 1, Cov.denseRow (@SMat.rowEntries Rat ⟨0⟩ o.sm 2) 1))
-      = some (1, -1) := by decide +kernel
+      (fun o => ((Cov.denseRow (@SMat.rowEntries Rat ⟨0⟩ o.sm 1) 1, Cov.denseRow (@SMat.rowEntries Rat ⟨0⟩ o.sm 1) 2,
+        Cov.denseRow (@SMat.rowEntries Rat ⟨0⟩ o.sm 2) 1, Cov.denseRow (@SMat.rowEntries Rat ⟨0⟩ o.sm 2) 2), o.pr))
+      = some ((0, 0, 0, 1), #[1, 1]) := by decide +kernel
   cases hp : Net.prepare repNp with
   | error e => rw [hp] at h1; cases h1
   | ok hh =>
@@ -272,7 +323,22 @@ theorem rep_differ : ∃ hh out, Net.prepare repNp = .ok hh ∧
       rw [hr] at h2
       have e1 := Option.some.inj h1
       have e2 := Option.some.inj h2
-      exact ⟨hh, out, rfl, rfl, congrArg Prod.fst e1, congrArg Prod.fst e2, congrArg Prod.snd e1, congrArg Prod.snd e2⟩
+      have eA : hh.Ad = #[#[0, 0], #[0, 1]] := congrArg Prod.fst e1
+      have eb : hh.bd = #[1, 1] := congrArg Prod.snd e1
+      have ep : out.pr = #[1, 1] := congrArg Prod.snd e2
+      have d := congrArg Prod.fst e2
+      simp only [Prod.mk.injEq] at d
+      obtain ⟨d11, d12, d21, d22⟩ := d
+      refine ⟨hh, out, rfl, rfl, eA, ?_, by rw [ep, eb]⟩
+      intro s c hs hc
+      rw [eA]
+      have hs' : s = 0 ∨ s = 1 := by omega
+      have hc' : c = 0 ∨ c = 1 := by omega
+      rcases hs' with rfl | rfl <;> rcases hc' with rfl | rfl
+      · exact d11
+      · exact d12
+      · exact d21
+      · exact d22
 
 end Ex
 
@@ -297,7 +363,7 @@ theorem npRMat_wf : npRMat.WF := SMat.ofRows_WF 3 2 _ [] rfl (by
 
 theorem npR_holds : Env.HoldsProblem (toProblem npR) npRMat npRCov [] := by
   have hin := Net.inputOK npR (npW_dims 2 [1]) (npW_rows 2 [1])
-  refine ⟨hin.blocks, hin.dims, ?_, npRMat_wf, by decide, rfl, rfl, rfl, ?_⟩
+  refine ⟨hin.blocks, hin.dims, ?_, npRMat_wf, by decide, rfl, rfl, rfl, ?_, ?_⟩
   · show npRCov.Built (Env.covMats (toProblem (npW 2 [1]))) []
     rw [npW2_toProblem]
     have h0 := Cov.BlockDiag.built_init (0 : ℝ) 2 4
@@ -316,6 +382,10 @@ theorem npR_holds : Env.HoldsProblem (toProblem npR) npRMat npRCov [] := by
     rw [hd]
     rcases hi2 with rfl | rfl | rfl <;> rcases hc2 with rfl | rfl <;>
       simp [r1, r2, r3, Cov.denseRow, Env.mget, Env.vget]
+  · intro i hi
+    have hi' : i < 3 := hi
+    have hi2 : i = 0 ∨ i = 1 ∨ i = 2 := by omega
+    rcases hi2 with rfl | rfl | rfl <;> rfl
 
 /-- `Homogenization::run` accepts it (because `Env.homogenize` does: `pSp_homogenize`) -/
 theorem npR_homrun_accepted (hsq : IsSqrt (SqrtFn.sq : ℝ → ℝ)) :
